@@ -384,6 +384,10 @@ def gen_case(r, cid, big=False):
             ncur = sum(1 for n in doc_nodes(docs[c["cur"]]) if n[0] != "attr")
             c["curctx"] = r.below(ncur)
             c["ctx"] = 0
+            # the same key() call also from another call site evaluated while the current node is that node of `cur`:
+            # an xsl:with-param select, an attribute value template, or an xsl:sort key (the sort key is evaluated with the
+            # sorted node as XPath context node while the XSLT current node stays the outer one)
+            c["extra"] = r.choice([None, "param", "avt", "sort", "sort"])
         if r.chance(3, 5):
             c["kind"] = "str"
             if r.chance(1, 2):
@@ -533,16 +537,29 @@ def render_sheet(case, sid):
                 ctx = "$D%d" % cur if j == 0 else "($D%d//node())[%d]" % (cur, j)
                 kk = kcall if form == "pred" else kcall + "/self::node()"
                 ksel = "($D%d//node()|$D%d//@*|$D%d)[count(.|%s)=count(%s)]" % (c["doc"], c["doc"], c["doc"], kk, kk)
+            extra = ""
+            ex = c.get("extra") if form != "top" else None
+            alld = "$D%d//node()|$D%d//@*|$D%d" % (c["doc"], c["doc"], c["doc"])
+            if ex == "param":
+                extra = ('<xsl:text>X param </xsl:text><xsl:call-template name="show"><xsl:with-param name="P" select="%s"/>'
+                         '</xsl:call-template>' % ksel)
+            elif ex == "avt":
+                extra = ('<xsl:variable name="T"><e a="{count(%s)}"/></xsl:variable><xsl:text>X avt </xsl:text>'
+                         '<xsl:value-of select="x:nodeset($T)/e/@a"/>' % ksel)
+            elif ex == "sort":
+                extra = ('<xsl:text>X sort </xsl:text><xsl:for-each select="%s"><xsl:sort select="count(.|%s)=count(%s)"/>%s'
+                         '</xsl:for-each>' % (alld, kcall, kcall, gid))
             out.append('<xsl:for-each select="%s">%s<xsl:variable name="K" select="%s"/>'
                        '<xsl:variable name="B" select="%s"/><xsl:variable name="R" select="%s"/>'
                        '<xsl:text>Q %d </xsl:text><xsl:value-of select="count($K)"/><xsl:text> </xsl:text>'
                        '<xsl:value-of select="count($B)"/><xsl:text> </xsl:text><xsl:value-of select="count($K|$B)"/>'
                        '<xsl:text> K </xsl:text><xsl:for-each select="$K">%s</xsl:for-each>'
                        '<xsl:text>B </xsl:text><xsl:for-each select="$B">%s</xsl:for-each>'
-                       '<xsl:text>R </xsl:text><xsl:for-each select="$R">%s</xsl:for-each><xsl:text>&#10;</xsl:text>'
+                       '<xsl:text>R </xsl:text><xsl:for-each select="$R">%s</xsl:for-each>%s<xsl:text>&#10;</xsl:text>'
                        '</xsl:for-each>'
-                       % (ctx, pre, ksel, bmain, broot, i, gid, gid, gid))
+                       % (ctx, pre, ksel, bmain, broot, i, gid, gid, gid, extra))
         out.append('</xsl:template>')
+        out.append('<xsl:template name="show"><xsl:param name="P"/><xsl:for-each select="$P">%s</xsl:for-each></xsl:template>' % gid)
     out.append('</xsl:stylesheet>')
     return "".join(out)
 
